@@ -178,12 +178,17 @@ class Pipeline:
         self._profile = profile
         self._default_resources: Resources | None = Resources.maybe_from_dict(default_resources)  # type: ignore[assignment]
         self.validate_type_annotations = validate_type_annotations
+        # The set of functions is validated as a whole: whether it is valid
+        # must not depend on the order in which the functions are listed.
+        self._defer_validation = True
         for f in functions:
             if isinstance(f, tuple):
                 f, mapspec = f  # noqa: PLW2901
             else:
                 mapspec = None
             self.add(f, mapspec=mapspec)
+        self._defer_validation = False
+        self._validate()
         self._cache_type = cache_type
         self._cache_kwargs = cache_kwargs
         if cache_type is None and any(f.cache for f in self.functions):
@@ -263,7 +268,8 @@ class Pipeline:
             f.debug = self.debug
 
         self._clear_internal_cache()  # reset cache
-        self._validate()
+        if not getattr(self, "_defer_validation", False):
+            self._validate()
         return f
 
     def drop(self, *, f: PipeFunc | None = None, output_name: OUTPUT_TYPE | None = None) -> None:
@@ -1912,8 +1918,12 @@ class Pipeline:
         needed = _find_needed_functions(pipeline, set(inputs or ()), output_nodes)
         drop = [f for f in pipeline.functions if f not in needed]
         defaults = pipeline.defaults  # a shared default might be set only by a dropped function
+        # Remove all unneeded functions first: an intermediate state (e.g. a producer
+        # dropped before its consumers) says nothing about the selection.
         for f in drop:
-            pipeline.drop(f=f)
+            pipeline.functions.remove(f)
+        pipeline._clear_internal_cache()
+        pipeline._validate()
         for f in pipeline.functions:
             shared = {
                 p: v
